@@ -1,8 +1,32 @@
 /-
-C03 — everything the library owns is released exactly once, on every path  (SEQUENTIAL PART: the program-level pipeline
-model; the concurrent kernels carry their own ghost ownership in C01 / C06 / C07 / C09–C11 / C16).
+C03 — everything the library owns is released exactly once, on every path.
 
-Objects: cores (one heap block each: functor + result + continuation state; unique cores: no counter, `DecRef` = delete)
+Two parts.
+
+SEQUENTIAL PART (namespace `Yaclib.Props.C03`, first half of this file): the program-level pipeline model — all pipeline
+shapes, drop points, stop points and event orders, with exact allocation / release counters for cores and functors.
+
+CONCURRENT PART (second half, one namespace `Yaclib.Props.C03.<Model>` per concurrent kernel model): for every interleaving
+at atomic-operation granularity of
+  Unique        the one-word hand-off of a unique core (release folded into the outcome step)            Model/Unique.lean
+  Shared        the reference-counted shared core, its callback objects, the moved-out value            Model/Shared.lean
+  When          the combinator object and the input cores of WhenAll / WhenAny / Join                   Model/When.lean
+  Coro          the coroutine frame, its locals, its callbacks on awaited objects                       Model/Coro.lean
+  Strand        the jobs of a strand and the strand's reference to itself                               Model/Strand.lean
+  Pool          the jobs of FairThreadPool (Submit-Drop / Call / HardStop-Drop)                         Model/Pool.lean
+  Wait          the stack event of Wait / WaitFor / WaitUntil and the pointers to it                    Model/Wait.lean
+  Event         WaitGroup / OneShotEvent: heap waiters of timed waits, consumed futures                 Model/Event.lean
+  CoMutex, CoSharedMutex   the waiter nodes that live in coroutine frames                               Model/Co*Mutex.lean
+three kinds of theorems over `Reachable w s`, for every workload the model quantifies over:
+  (i) no object is accessed after its release, (ii) nothing is released twice, (iii) at quiescence everything allocated for
+  the workload has been released.
+NOT expressible in these models (no ghost for it; see the section comments): the reference counts of `IExecutorPtr`s held by
+cores and jobs; functor objects as separate objects inside concurrent cores (they die with their core; counted exactly in the
+sequential part); the Drop path of a callback JOB submitted by a unique / shared core to a stopped executor (the kernels
+model the Call path; the Drop path is covered at program level by the sequential part and, for executors, by Strand / Pool);
+`~Task` of an awaited Task (`Coro.tdtor`) is an unconstrained client step, so "exactly once" for it is the client's matter.
+
+Sequential part.  Objects: cores (one heap block each: functor + result + continuation state; unique cores: no counter, `DecRef` = delete)
 and the functors stored in them.  Release points, all taken from `Extracted/Dispatch.lean`: `Core::Done` releases its
 caller iff `(!IsRun && (IsFromUnique || IsCall || kAsync)) || Async` and destroys the functor iff `!Async`;
 `CallResolveAsync` releases the caller iff `!IsRun` and destroys the functor; async_done releases the inner state; the Drop
@@ -21,6 +45,8 @@ import YaclibModel.Proofs.PipelineSpec
 import YaclibModel.Extracted.Kernels
 import YaclibModel.Model.Skeletons
 import YaclibModel.Proofs.UniqueOwn
+import YaclibModel.Proofs.WhenOwn
+import YaclibModel.Proofs.StrandOwn
 import YaclibModel.Props.C01
 import YaclibModel.Props.C06
 import YaclibModel.Props.C07
@@ -145,3 +171,971 @@ theorem tie_Task_Cancel : Extracted.Kernels.Task_Cancel = Skeletons.Task_Cancel 
 theorem tie_detail_SetCallback : Extracted.Kernels.detail_SetCallback = Skeletons.detail_SetCallback := rfl
 
 end Yaclib.Props.C03.Tie
+
+/-! # CONCURRENT PART
+
+One section per concurrent kernel model.  Each section restates, under C03 names and over `Reachable w s` for EVERY
+workload the model quantifies over (all interleavings at atomic-operation granularity, stale loads, spurious CAS failures),
+  (i)   no object is accessed after it was released,
+  (ii)  nothing is released twice,
+  (iii) at quiescence everything allocated for the workload has been released.
+Almost everything is a corollary of the invariants proved for the model's own property (C01, C06, C07, C08, C09, C11, C13,
+C14, C15, C16); the new inductive facts are in Proofs/UniqueOwn.lean, Proofs/WhenOwn.lean and Proofs/StrandOwn.lean
+(proved on top of the existing invariants; no Model / Proofs file of another property is changed). -/
+
+/-! ## Unique core (Model/Unique.lean; `BaseCore::{SetCallbackImpl<false>, SetResultImpl}`, `Promise::Set / ~Promise`,
+`FutureBase::{~FutureBase, Detach, Get}`, `Connect`, `Drop::Impl`)
+
+A unique core has no reference counter: `DecRef` = delete.  The model folds the release into the *outcome* step — the
+continuation was invoked (`delivered`; `Core::Done` releases the caller right after the body), `Get() &&` returned (`got`;
+`FutureBase::Get` takes the Result and releases the core), the `Connect` target received the Result (`forwarded`), the Drop
+core ran (`dropped`; `Drop::Impl` → `caller.DecRef()`).  `outcomeCount w s` counts the outcome the consumer asked for, so
+"released" = `outcomeCount w s = 1`.  `stored` is the Result storage inside the core (`none` = not constructed / destroyed). -/
+namespace Yaclib.Props.C03.Unique
+open Yaclib.Unique
+
+variable {w : Workload} {s : State}
+
+/-- (ii) the unique core (`UniqueCore`, released by `Core::Done` / `FutureBase::Get` / `Connect` / `Drop::Impl`) is released
+    at most once: the outcome step that carries the release happens at most once -/
+theorem released_at_most_once_Unique (h : Reachable w s) : outcomeCount w s ≤ 1 := C01.outcome_at_most_once h
+
+/-- (ii) per release point: at most one continuation invocation (`Core::Done`), one `Get() &&` return, one `Connect` forward,
+    one run of the Drop core — and only the kind the consumer asked for ever happens -/
+theorem each_release_point_at_most_once_Unique (h : Reachable w s) :
+    s.delivered.length + s.got.length + s.forwarded.length + s.dropped.length ≤ 1 := by
+  have h2 := inv2_reachable h
+  have hle := C01.outcome_at_most_once h
+  unfold outcomeCount at hle
+  cases hf : w.fin with
+  | attach b =>
+      rw [hf] at hle
+      rw [h2.only_drop (by rw [hf]; simp), h2.only_got (by rw [hf]; simp), h2.only_fwd (by rw [hf]; simp)]
+      simpa using hle
+  | drop =>
+      rw [hf] at hle
+      rw [h2.only_deliver (by rw [hf]; simp), h2.only_got (by rw [hf]; simp), h2.only_fwd (by rw [hf]; simp)]
+      simpa using hle
+  | getMove =>
+      rw [hf] at hle
+      rw [h2.only_deliver (by rw [hf]; simp), h2.only_drop (by rw [hf]; simp), h2.only_fwd (by rw [hf]; simp)]
+      simpa using hle
+  | connect =>
+      rw [hf] at hle
+      rw [h2.only_deliver (by rw [hf]; simp), h2.only_drop (by rw [hf]; simp), h2.only_got (by rw [hf]; simp)]
+      simpa using hle
+
+/-- (i) no use after release: once the core was released (the outcome happened) NO step of the producer or of the consumer is
+    enabled any more — nobody loads / CASes / exchanges the word, reads the Result storage or touches the wait event -/
+theorem no_use_after_release_Unique (h : Reachable w s) (h1 : outcomeCount w s = 1) : ∀ l s', ¬ Step s l s' :=
+  no_step_after_release h h1
+
+/-- (i) the same seen from the threads: at the release the producer has left `SetResultImpl` (it is past its `exchange` and
+    past running the callback it took out), the consumer has finished its last operation -/
+theorem release_is_last_access_Unique (h : Reachable w s) (h1 : outcomeCount w s = 1) :
+    s.ppc = .done ∧ s.cpc = .idle ∧ s.todo = [] :=
+  ⟨(released_facts h h1).1, (released_facts h h1).2.1, (released_facts h h1).2.2.1⟩
+
+/-- the stored Result dies with the core: after `Get() &&` (moved out), `Connect` (moved into the target) and `Drop::Impl`
+    (destroyed with the core) the storage is no longer constructed.  (For a continuation the model keeps `stored`: the
+    continuation's core only reads its caller's Result, the caller is destroyed by `Core::Done` after the body — by
+    `no_use_after_release_Unique` nothing reads it afterwards.) -/
+theorem value_destroyed_Unique (h : Reachable w s) (hf : ∀ b, w.fin ≠ .attach b) (h1 : outcomeCount w s = 1) :
+    s.stored = none := (released_facts h h1).2.2.2 hf
+
+/-- (i) the Result storage is read only while it is constructed: a continuation body, a `Connect` forward and a `Get() &&`
+    return read `stored = some r` (with the word = `result` and `r` the Result that was set) in the state they start from -/
+theorem storage_read_only_while_constructed_Unique (h : Reachable w s) {l : Label} {s' : State} {r : Res} (hs : Step s l s')
+    (hl : (∃ t, l = .invoke t r) ∨ (∃ t, l = .forward t r) ∨ l = .got r) :
+    s.stored = some r ∧ s.word = .result ∧ r = w.prod.res := by
+  have hi := inv_reachable h
+  have key : s.stored = some r → s.stored = some r ∧ s.word = .result ∧ r = w.prod.res :=
+    fun hr => ⟨hr, (hi.stored_val r hr).2, (hi.stored_val r hr).1⟩
+  rcases hl with ⟨t, hl⟩ | ⟨t, hl⟩ | hl <;> subst hl
+  · cases hs with
+    | pInvoke _ _ _ hr => exact key hr
+    | pInvokeSub _ _ hr => exact key hr
+    | cInvoke _ _ _ hr => exact key hr
+    | cInvokeSub _ _ hr => exact key hr
+  · cases hs with
+    | pForward _ _ hr => exact key hr
+    | cForward _ _ hr => exact key hr
+  · cases hs with
+    | cGot _ _ hr => exact key hr
+
+/-- (ii) the Result storage is constructed only from the unconstructed state and destroyed only by the (unique) release:
+    a step that takes `stored` from `some _` to `none` is the outcome step -/
+theorem value_destroyed_only_by_release_Unique (h : Reachable w s) {l : Label} {s' : State} (hs : Step s l s')
+    (h0 : s.stored ≠ none) (h1 : s'.stored = none) : outcomeCount w s = 0 ∧ outcomeCount w s' = 1 := by
+  have hle := C01.outcome_at_most_once h
+  have hne : outcomeCount w s ≠ 1 := fun he => no_step_after_release h he _ _ hs
+  refine ⟨by omega, ?_⟩
+  rcases stored_change (inv_reachable h) hs with hc | hc | hc
+  · rw [hc] at h1; exact absurd h1 h0
+  · exact absurd hc h0
+  · exact outcome_of_history (.step h hs) (Or.inr hc)
+
+/-- (i) the stack event of `Wait` / `Get() &&` (`MutexEvent`, an object of the consumer's frame): while the producer holds a pointer
+    to it (it took the event callback out of the word) or is inside `MutexEvent::Set`, the consumer is still inside the wait —
+    the event is never touched after the wait returned -/
+theorem wait_event_alive_while_producer_sets_Unique (h : Reachable w s) (hp : s.ppc = .fire .event ∨ s.ppc = .evLocked) :
+    inWait s.cpc := by
+  have hi := inv_reachable h
+  rcases hp with hp | hp
+  · exact ((hi.fire .event hp).2.1 rfl).1
+  · rcases (hi.evlocked hp).1 with hc | hc
+    · exact Or.inl hc
+    · exact Or.inr (Or.inr hc)
+
+/-- (iii) nothing is forgotten: in every state in which no thread can take a step the core has been released exactly once
+    (and, unless a continuation took the Result over, the stored Result is gone) -/
+theorem quiescent_all_released_Unique (h : Reachable w s) (hq : ∀ l s', ¬ Step s l s') :
+    outcomeCount w s = 1 ∧ ((∀ b, w.fin ≠ .attach b) → s.stored = none) := by
+  have h1 := (C01.quiescent_complete h hq).2.2.2
+  exact ⟨h1, fun hf => value_destroyed_Unique h hf h1⟩
+
+/-- non-vacuity: a dropped Promise and a blocking `Get() &&`: the core is released by the `Get`, the Result is gone -/
+example : ∃ s, Reachable ⟨.drop, [], .getMove⟩ s ∧ outcomeCount ⟨.drop, [], .getMove⟩ s = 1 ∧ s.stored = none ∧
+    ∀ l s', ¬ Step s l s' := by
+  let w : Workload := ⟨.drop, [], .getMove⟩
+  have h0 : Reachable w (init w) := .init
+  have h1 := C01.validator_sound h0 (l := .cLoad .empty) (s' := _) rfl
+  have h2 := C01.validator_sound h1 (l := .cCas .event true) (s' := _) rfl
+  have h3 := C01.validator_sound h2 (l := .lock .c) (s' := _) rfl
+  have h4 := C01.validator_sound h3 (l := .unlock .c) (s' := _) rfl
+  have h5 := C01.validator_sound h4 (l := .pXchg (.cb .event)) (s' := _) rfl
+  have h6 := C01.validator_sound h5 (l := .lock .p) (s' := _) rfl
+  have h7 := C01.validator_sound h6 (l := .unlock .p) (s' := _) rfl
+  have h8 := C01.validator_sound h7 (l := .lock .c) (s' := _) rfl
+  have h9 := C01.validator_sound h8 (l := .unlock .c) (s' := _) rfl
+  have h10 := C01.validator_sound h9 (l := .got .err) (s' := _) rfl
+  exact ⟨_, h10, rfl, rfl, no_use_after_release_Unique h10 rfl⟩
+
+/-- non-vacuity: the Future is dropped first, then the Promise is fulfilled: the producer runs the Drop core, which releases
+    the core without ever constructing a Result that somebody could read -/
+example : ∃ s, Reachable ⟨.set (.val 7), [], .drop⟩ s ∧ s.dropped = [.p] ∧ outcomeCount ⟨.set (.val 7), [], .drop⟩ s = 1 ∧
+    s.stored = none := by
+  let w : Workload := ⟨.set (.val 7), [], .drop⟩
+  have h0 : Reachable w (init w) := .init
+  have h1 := C01.validator_sound h0 (l := .cLoad .empty) (s' := _) rfl
+  have h2 := C01.validator_sound h1 (l := .cCas .drop true) (s' := _) rfl
+  have h3 := C01.validator_sound h2 (l := .pXchg (.cb .drop)) (s' := _) rfl
+  exact ⟨_, h3, rfl, rfl, rfl⟩
+
+end Yaclib.Props.C03.Unique
+
+/-! ## Shared core (Model/Shared.lean; `SharedCore`, `AtomicCounter` via `Helper::{IncRef, DecRef, GetRef}`, `SharedPromise`,
+`SharedFuture`, `SharedCore::{SetCallback, SetResult, Retire}`)
+
+The core carries a real reference counter: `count` (3 for the promise, one per SharedFuture copy, one per submitted executor
+job, one per When-style callback in a list); `freed` counts executions of `delete` (the `DecRef` that reached zero);
+`movedOut` says that the stored Result was moved out (`Get() &&` / `Retire()` by the sole owner, the last Connect target).
+Callback objects handed to `SetCallback` are `registered`; running one (`fired`) consumes it. -/
+namespace Yaclib.Props.C03.Shared
+open Yaclib.Shared
+
+variable {w : Workload} {s : State}
+
+/-- (ii) the shared core is deleted at most once (`Helper::DecRef` → `delete this` only when the counter reached zero) -/
+theorem released_at_most_once_Shared (h : Reachable w s) : s.freed ≤ 1 := C06.freed_at_most_once h
+
+/-- (ii) … and exactly by the `DecRef` that dropped the last reference -/
+theorem released_iff_last_reference_Shared (h : Reachable w s) : s.freed = 1 ↔ s.count = 0 := C06.freed_iff_count_zero h
+
+/-- (i)/(ii) every unit of the counter has an owner — the promise (3, released around the last callback), the SharedFuture
+    copies of the observers, submitted executor jobs, When-style callbacks still in a list: no `DecRef` without a reference -/
+theorem references_accounted_Shared (h : Reachable w s) :
+    s.count = promRefs s.fpc + s.holders + s.jobs.length + s.jobsRun.length
+      + retCnt (wordList s.word) + retCnt (walkList s.fpc) := C06.count_accounts h
+
+/-- (i) no use after free: once the core was deleted NO step of the model is enabled — nobody touches the word, the counter
+    or the Result, no callback runs, no executor job of this core exists -/
+theorem no_use_after_release_Shared (h : Reachable w s) (hf : 0 < s.freed) : ∀ l s', ¬ Step s l s' :=
+  C06.no_use_after_free h hf
+
+/-- (iii) at quiescence the only references left are SharedFuture objects still in the client's hands … -/
+theorem quiescent_only_client_references_Shared (h : Reachable w s) (hq : ∀ l s', ¬ Step s l s') :
+    s.count = s.holders ∧ s.jobs = [] ∧ s.jobsRun = [] ∧ s.inflight = [] := by
+  have hi := inv_reachable h
+  obtain ⟨hf, hj, hjr, hin, _, _⟩ := C06.quiescent_complete h hq
+  have hw : s.word = .result := hi.a.word_iff.mpr (by rw [hf]; simp)
+  have hcnt := hi.r.cnt
+  rw [hf, hj, hjr, hw] at hcnt
+  simp [wordList, walkList, retCnt] at hcnt
+  exact ⟨hcnt, hj, hjr, hin⟩
+
+/-- (iii) … so once every SharedFuture copy was destroyed the core has been deleted, exactly once: promise dropped or set,
+    futures dropped before or after, callbacks run inline / via executor / as Connect target / When-style — all paths -/
+theorem quiescent_all_released_Shared (h : Reachable w s) (hq : ∀ l s', ¬ Step s l s') (hr : ∀ t, (s.obs t).refs = 0) :
+    s.count = 0 ∧ s.freed = 1 := C06.quiescent_released h hq hr
+
+/-- (ii) a registered callback object (`SetCallback` on the shared word) is consumed — run — at most once, and after it ran it
+    is in no list, in nobody's hands and in no executor -/
+theorem callback_consumed_at_most_once_Shared (h : Reachable w s) :
+    (firedIds s).Nodup ∧ ∀ c ∈ firedIds s, c ∉ wordList s.word ∧ c ∉ walkList s.fpc ∧ c ∉ s.inflight ∧ c ∉ s.jobs :=
+  ⟨C06.fired_once h, fun _ hc => C06.fired_not_pending h hc⟩
+
+/-- (ii)/(iii) every registered callback object is in exactly one place (fired / word list / fulfiller's walk list / its
+    owner's hands / an executor) … -/
+theorem callback_conservation_Shared (h : Reachable w s) (c : Cb) :
+    s.registered.count c =
+      (firedIds s).count c + (wordList s.word).count c + (walkList s.fpc).count c + s.inflight.count c + s.jobs.count c :=
+  C06.conservation h c
+
+/-- (iii) … and at quiescence every one of them has been consumed exactly once -/
+theorem quiescent_all_callbacks_consumed_Shared (h : Reachable w s) (hq : ∀ l s', ¬ Step s l s') :
+    ∀ c ∈ s.registered, (firedIds s).count c = 1 := (C06.quiescent_complete h hq).2.2.2.2.2
+
+/-- (i)/(ii) the stored Result is moved out at most once and never read afterwards: after `Get() &&` / `Retire()` by the sole
+    owner or the move into the last Connect target no step reads and no step moves -/
+theorem value_moved_out_once_Shared (h : Reachable w s) (hm : s.movedOut = true) {l : Label} {s' : State} (hs : Step s l s') :
+    l.reads = false ∧ l.moves = false := ⟨C06.no_read_after_moveout h hm hs, C06.no_second_moveout h hm hs⟩
+
+/-- (i) an observer moves the Result out only as the sole owner: counter = 1, the promise has released all its references,
+    no executor job, no other SharedFuture -/
+theorem observer_moves_only_as_sole_owner_Shared (h : Reachable w s) {l : Label} {s' : State} (hs : Step s l s') {t : Nat}
+    (hl : (∃ r, l = .oGot t r true) ∨ (∃ c r n, l = .oRetire t c r true n)) :
+    s.count = 1 ∧ s.fpc = .dec 0 ∧ s.jobs = [] ∧ s.jobsRun = [] ∧ (s.obs t).refs = 1 ∧
+    ∀ t', t' ≠ t → (s.obs t').refs = 0 := C06.observer_moves_only_as_sole_owner h hs hl
+
+/-- (i) the fulfiller moves the Result into a Connect/Share target only when no observer, job or callback holds a reference -/
+theorem fulfiller_moves_only_without_holders_Shared (h : Reachable w s) {s' : State} {c : Cb} {r : Option Res} {mv : Bool}
+    (hs : Step s (.fForward c r mv) s') (hmv : mv = true) :
+    s.count = 2 ∧ s.jobs = [] ∧ s.jobsRun = [] ∧ walkList s.fpc = [c] ∧ ∀ t, (s.obs t).refs = 0 :=
+  C06.fulfiller_moves_only_without_holders h hs hmv
+
+/-- non-vacuity: `Then(e, f)` on a fulfilled SharedFuture; the job outlives every SharedFuture and the promise and frees the
+    core itself — exactly once, and nothing can happen afterwards -/
+example : ∃ s, Reachable ⟨.set (.val 42), [[.attach .exec, .drop]]⟩ s ∧ s.count = 0 ∧ s.freed = 1 ∧ ∀ l s', ¬ Step s l s' := by
+  let w : Workload := ⟨.set (.val 42), [[.attach .exec, .drop]]⟩
+  let c : Cb := ⟨0, 0, .exec⟩
+  have h0 : Reachable w (init w) := .init
+  have h1 := C06.validator_sound h0 (l := .fXchg (.list [])) (s' := _) rfl
+  have h2 := C06.validator_sound h1 (l := .oLoad 0 (.list [])) (s' := _) rfl
+  have h3 := C06.validator_sound h2 (l := .oCasFail 0 .result) (s' := _) rfl
+  have h4 := C06.validator_sound h3 (l := .oIncRef 0 4) (s' := _) rfl
+  have h5 := C06.validator_sound h4 (l := .oSubmit 0 c) (s' := _) rfl
+  have h6 := C06.validator_sound h5 (l := .fDec 5) (s' := _) rfl
+  have h7 := C06.validator_sound h6 (l := .fDec 4) (s' := _) rfl
+  have h8 := C06.validator_sound h7 (l := .fDec 3) (s' := _) rfl
+  have h9 := C06.validator_sound h8 (l := .oDrop 0 2) (s' := _) rfl
+  have h10 := C06.validator_sound h9 (l := .jInvoke c (some (.val 42))) (s' := _) rfl
+  have h11 := C06.validator_sound h10 (l := .jDec c 1) (s' := _) rfl
+  exact ⟨_, h11, rfl, rfl, no_use_after_release_Shared h11 (by decide)⟩
+
+end Yaclib.Props.C03.Shared
+
+/-! ## Combinator (Model/When.lean; `when::When`, `CombinatorCallback::Impl`, `Consume/ConsumeImpl`, the strategies of
+all.hpp / all_tuple.hpp / join.hpp / any.hpp, `MakeShared(count, …)` + `DecRef` on the combinator)
+
+Objects: the combinator (strategy + output promise + callback nodes; reference count `count` = one per input whose consumption
+has not yet run `_self->DecRef()`), and the input cores.  `dt = some i`: the consumption of input `i` executed the `DecRef`
+that read 1, i.e. deleted the combinator — its thread runs `~Strategy` / `~Promise` (`dtorRel`, `dtorSet`) as part of that
+delete.  `released j` counts releases of input core `j` (`core.Retire()` / `core.DecRef()` by its own consumption for Managed
+strategies, the loop over `_cores` in `~All` for Owned ones), `consumed j` entries of its callback.  For all nine strategies,
+every number of inputs and success / failure pattern, every interleaving of the registration loop with the completions. -/
+namespace Yaclib.Props.C03.When
+open Yaclib.When
+
+variable {w : Workload} {s : State}
+
+/-- (ii) every input core is released at most once and its combinator callback entered at most once, whether or not the output
+    was decided early (FirstFail / Any) -/
+theorem inputs_released_at_most_once_When (h : Reachable w s) : ∀ i, s.consumed i ≤ 1 ∧ s.released i ≤ 1 :=
+  consumed_released_le_one (invc_reachable h)
+
+/-- (ii) at the step level: `core.Retire()` / `core.DecRef()` / the `~All` loop release input `j` only if it was not released -/
+theorem input_released_only_if_unreleased_When (h : Reachable w s) {l : Label} {s' : State} (hs : Step w s l s') {j : Nat}
+    (hl : l.releases j) : s.released j = 0 := by
+  have h1 := (inputs_released_at_most_once_When (.step h hs) j).2
+  rw [released_step hs hl] at h1
+  omega
+
+/-- (ii) the combinator is destroyed at most once, by the `DecRef` that read 1: `dt` is set by that step only … -/
+theorem combinator_destroyed_only_by_last_reference_When {l : Label} {s' : State} (hs : Step w s l s') (h0 : s.dt = none)
+    {i : Nat} (h1 : s'.dt = some i) : l = .dec i 1 ∧ s.count = 1 := by
+  rcases dt_step hs with h | ⟨k, hl, hc, hk⟩
+  · rw [h, h0] at h1; cases h1
+  · rw [hk] at h1; cases h1; exact ⟨hl, hc⟩
+
+/-- … and once set it never changes; in that state the count is 0, the destroying consumption no longer holds a reference and
+    every other consumption has finished -/
+theorem combinator_destroyed_once_When (h : Reachable w s) {i : Nat} (hd : s.dt = some i) :
+    s.count = 0 ∧ holding (s.pc i) = false ∧ (∀ j, j < w.n → j ≠ i → s.pc j = .done) ∧
+    ∀ l s', Step w s l s' → s'.dt = some i :=
+  let hC := invc_reachable h
+  ⟨(others_done_of_dt hC hd).1, hC.dt_pc i hd, (others_done_of_dt hC hd).2, fun _ _ hs => dt_stable hC hd hs⟩
+
+/-- (i) no use after release: once the last reference was dropped nobody but the thread that runs the delete takes a step, and
+    every such step is a step of the destructor of the strategy / of the output promise (`~All` loop, publishing the output) — no
+    registration, no other consumption, no strategy-word operation touches the combinator -/
+theorem no_use_after_release_When (h : Reachable w s) {i : Nat} (hd : s.dt = some i) {l : Label} {s' : State}
+    (hs : Step w s l s') : l.input = i ∧ inDtor (s.pc i) = true := by
+  have hC := invc_reachable h
+  have hi := only_dtor_steps hC hd hs
+  refine ⟨hi, ?_⟩
+  have hnd := step_input_not_done hC hs
+  rw [hi] at hnd
+  cases hin : inDtor (s.pc i) with
+  | true => rfl
+  | false => exact absurd (done_of_not_holding (hC.dt_pc i hd) hin) hnd
+
+/-- (i) an input core is not touched after its release: no `SetCallback` on it by the registration loop, no completing thread takes
+    a callback out of it, no second release -/
+theorem input_not_touched_after_release_When (h : Reachable w s) {j : Nat} (hr : s.released j = 1) {l : Label} {s' : State}
+    (hs : Step w s l s') : ¬ l.touchesInput j := by
+  have hC := invc_reachable h
+  obtain ⟨h1, h2⟩ := released_past_handoff hC hr
+  rintro (⟨okb, hl⟩ | hl | hl)
+  · subst hl
+    cases hs with
+    | regSet _ _ hc hb hreg hn => exact h1 ((hC.unreg j).mpr (by omega))
+  · subst hl
+    cases hs with
+    | fire _ hc hp => exact h2 hp
+  · have := (inputs_released_at_most_once_When (.step h hs) j).2
+    rw [released_step hs hl] at this
+    omega
+
+/-- (i) the same from the destructor's side: whoever is inside `~Strategy` is alone and is the one that dropped the last reference -/
+theorem destructor_runs_alone_When (h : Reachable w s) {i : Nat} (hd : inDtor (s.pc i) = true) :
+    s.dt = some i ∧ ∀ j, j < w.n → j ≠ i → s.pc j = .done :=
+  let hC := invc_reachable h
+  ⟨hC.dtor_dt i hd, fun j hj hji => hC.dtor i j hd hj hji⟩
+
+/-- (i) while a consumption (or the registration of an input) still holds its reference the combinator is alive -/
+theorem holder_keeps_combinator_alive_When (h : Reachable w s) {i : Nat} (hi : i < w.n) (hh : holding (s.pc i) = true) :
+    0 < s.count ∧ s.dt = none := by
+  have hC := invc_reachable h
+  have hpos : 0 < s.count := by rw [hC.count]; exact cnt_pos (p := fun j => holding (s.pc j)) hi hh
+  refine ⟨hpos, ?_⟩
+  cases hd : s.dt with
+  | none => rfl
+  | some k => have := hC.dt_cnt (by rw [hd]; simp); omega
+
+/-- (iii) nothing is forgotten: when nothing can move any more (n ≠ 0; for n = 0 `When` allocates nothing:
+    `C09.empty_is_invalid`) every input was consumed and released exactly once, the reference count is 0, the combinator was
+    destroyed (exactly once, by `combinator_destroyed_once_When`) and the output promise was fulfilled exactly once — so the
+    output core is not leaked with a broken promise either -/
+theorem quiescent_all_released_When (hwf : w.wf) (h : Reachable w s) (hn : w.n ≠ 0) (hq : ∀ l s', ¬ Step w s l s') :
+    (∀ i, i < w.n → s.pc i = .done ∧ s.consumed i = 1 ∧ s.released i = 1) ∧ s.count = 0 ∧ s.dt ≠ none ∧
+    s.outSet.length = 1 := by
+  have hI := inv_reachable hwf h
+  have hc := (C09.no_crash hwf h).1
+  have hd := done_of_quiescent hI.c hc hq
+  have hcomp := complete_of_all_done hI.c hI.o hn hd
+  have hcnt : s.count = 0 := by
+    rw [hI.c.count]; exact cnt_all_false (fun i hi => by rw [hd i hi]; rfl)
+  exact ⟨fun i hi => ⟨hd i hi, hcomp.2 i hi⟩, hcnt, hI.c.cnt_dt hcnt hn, hcomp.1⟩
+
+/-- non-vacuity: `WhenAll` (tuple form, FirstFail) over two failing inputs: the first failure wins and sets the output while the
+    other input is still pending; the loser drops its reference first (`dec 1 2`), the winner drops the last one (`dec 0 1`) and
+    thereby destroys the combinator; both inputs were released exactly once -/
+example : ∃ s, Reachable ⟨.allTuple true, [.err 0, .err 1]⟩ s ∧ s.dt = some 0 ∧ s.count = 0 ∧ s.released 0 = 1 ∧
+    s.released 1 = 1 ∧ s.outSet = [.one (.err 0)] := by
+  let w : Workload := ⟨.allTuple true, [.err 0, .err 1]⟩
+  have h0 : Reachable w (init w) := .init
+  have h1 := C09.validator_sound h0 (l := .regSet 0 true) (s' := _) rfl
+  have h2 := C09.validator_sound h1 (l := .regSet 1 true) (s' := _) rfl
+  have h3 := C09.validator_sound h2 (l := .fire 0) (s' := _) rfl
+  have h4 := C09.validator_sound h3 (l := .retire 0) (s' := _) rfl
+  have h5 := C09.validator_sound h4 (l := .loadFlag 0 false) (s' := _) rfl
+  have h6 := C09.validator_sound h5 (l := .xchgFlag 0 false) (s' := _) rfl
+  have h7 := C09.validator_sound h6 (l := .setOut 0 (.one (.err 0))) (s' := _) rfl
+  have h8 := C09.validator_sound h7 (l := .fire 1) (s' := _) rfl
+  have h9 := C09.validator_sound h8 (l := .retire 1) (s' := _) rfl
+  have h10 := C09.validator_sound h9 (l := .loadFlag 1 true) (s' := _) rfl
+  have h11 := C09.validator_sound h10 (l := .dec 1 2) (s' := _) rfl
+  have h12 := C09.validator_sound h11 (l := .dec 0 1) (s' := _) rfl
+  exact ⟨_, h12, rfl, rfl, rfl, rfl, rfl⟩
+
+/-- non-vacuity: `WhenAll` (vector form, Owned cores): the inputs are released by the loop of `~All`, run by the consumption
+    that dropped the last reference -/
+example : ∃ s, Reachable ⟨.allVec false, [.val 1, .val 2]⟩ s ∧ s.dt = some 1 ∧ s.released 0 = 1 ∧ s.released 1 = 1 ∧
+    s.outSet = [.vec [some (.val 1), some (.val 2)]] ∧ s.pc 1 = .done := by
+  let w : Workload := ⟨.allVec false, [.val 1, .val 2]⟩
+  have h0 : Reachable w (init w) := .init
+  have h1 := C09.validator_sound h0 (l := .regSet 0 false) (s' := _) rfl
+  have h2 := C09.validator_sound h1 (l := .dec 0 2) (s' := _) rfl
+  have h3 := C09.validator_sound h2 (l := .regSet 1 true) (s' := _) rfl
+  have h4 := C09.validator_sound h3 (l := .fire 1) (s' := _) rfl
+  have h5 := C09.validator_sound h4 (l := .dec 1 1) (s' := _) rfl
+  have h6 := C09.validator_sound h5 (l := .dtorRel 1 0) (s' := _) rfl
+  have h7 := C09.validator_sound h6 (l := .dtorRel 1 1) (s' := _) rfl
+  have h8 := C09.validator_sound h7 (l := .dtorSet 1 (.vec [some (.val 1), some (.val 2)])) (s' := _) rfl
+  exact ⟨_, h8, rfl, rfl, rfl, rfl, rfl⟩
+
+end Yaclib.Props.C03.When
+
+/-! ## Coroutine frame (Model/Coro.lean; `PromiseType::{Call, Drop, Here/Next}`, `Destroy::await_suspend` (final_suspend →
+`SetResult`), `PromiseTypeDeleter::Delete` = `handle.destroy()`, the awaiters of await_awaiter.hpp / await_on_awaiter.hpp /
+on_awaiter.hpp)
+
+Objects: the coroutine frame (with the promise object = the core, the locals and the awaiter objects inside it) and the
+coroutine as a submitted job.  `frameDestroyed` counts `handle.destroy()` (step `fdtor`, pc `gone`), `localDtors` destructor
+runs of the frame's locals (`live` = locals still alive), `published` the `SetResult` of the coroutine's own Result.  A callback
+registered on an awaited object (`(s.word j).cbs`) is a pointer into the frame (the awaiter lives there).  Paths: normal
+completion, escaped exception, and the coroutine Dropped by a stopped executor while suspended (`exDrop`: `Store(StopTag)`,
+`SetResult`; the locals then die together with the frame).  Hypotheses `w.WF` / `w.WFT`: arity of the awaiters, no awaited
+object twice in one awaiter, Task cells are awaited as Tasks (preconditions of the API). -/
+namespace Yaclib.Props.C03.Coro
+open Yaclib.Coro
+
+variable {w : Workload} {s : State}
+
+/-- (ii) the frame is destroyed at most once (`PromiseTypeDeleter::Delete`), every local at most once; when the frame is gone
+    every local was destroyed exactly once — also for a coroutine Dropped by a stopped executor (locals die with the frame) -/
+theorem frame_destroyed_once_Coro (hwf : w.WF) (hwt : w.WFT) (h : Reachable w s) :
+    s.frameDestroyed ≤ 1 ∧ s.localDtors ≤ w.locals ∧ (s.pc = .gone → s.frameDestroyed = 1 ∧ s.localDtors = w.locals) ∧
+    (s.frameDestroyed = 1 → s.pc = .gone) := C13.frame_destroyed_once hwf hwt h
+
+/-- (i) the locals are alive as long as the body runs or is suspended in a co_await: no local is destroyed under a running body -/
+theorem locals_alive_while_running_Coro (hwf : w.WF) (hwt : w.WFT) (h : Reachable w s)
+    (hp : inOp s.pc = true ∨ s.pc = .idle) : s.live = w.locals ∧ s.localDtors = 0 :=
+  C13.locals_alive_while_running hwf hwt h hp
+
+/-- (i) no use after destroy: once the frame was destroyed only the environment can act (fulfil an awaited object, register a
+    foreign callback, move a started Task to another executor): no callback of this coroutine runs (`fire`), no executor Calls or
+    Drops it, no `await_resume`, no destructor of a local, no `SetResult`, no second `destroy()` -/
+theorem no_use_after_destroy_Coro (hwf : w.WF) (hwt : w.WFT) (h : Reachable w s) (hg : s.frameDestroyed = 1)
+    {l : Label} {s' : State} (hs : Step s l s') : isEnv l = true := by
+  have hpc : s.pc = .gone := (C13.frame_destroyed_once hwf hwt h).2.2.2 hg
+  have hb := (full_reachable hwf hwt h).i.b
+  have hno := no_cbs_of_not_inop hb (by rw [hpc]; rfl)
+  cases hs with
+  | pXchg j l f hw hl => rfl
+  | envPush j l f hw hu => rfl
+  | envSwap j e hu => rfl
+  | fire op rest j p walk ht hw hp => exact absurd (by rw [hw]; exact hp) (hno j p)
+  | ldtor hx hl => rw [hpc] at hx; simp at hx
+  | _ => simp_all
+
+/-- (i) nothing points into a frame whose awaiter is gone: between two co_awaits, after the body was left, after the Result was
+    published and after the frame was destroyed no callback of this coroutine is registered on (or still to be run by the
+    fulfiller of) any awaited object; the same once the awaiter has decided (the coroutine is about to be resumed, submitted
+    or was handed to an executor) -/
+theorem no_dangling_callback_Coro (hwf : w.WF) (hwt : w.WFT) (h : Reachable w s)
+    (hp : inOp s.pc = false ∨ decided s.pc = true) : ∀ j p, p ∉ (s.word j).cbs := by
+  have hb := (full_reachable hwf hwt h).i.b
+  rcases hp with hp | hp
+  · exact no_cbs_of_not_inop hb hp
+  · exact no_cbs_of_decided hb hp
+
+/-- (ii) a callback of this coroutine is registered at most once per awaited object (no node is linked twice) -/
+theorem callback_registered_once_Coro (hwf : w.WF) (hwt : w.WFT) (h : Reachable w s) : ∀ j, (s.word j).cbs.Nodup :=
+  (full_reachable hwf hwt h).i.b.nodup
+
+/-- (ii) the coroutine's own Result is published (`SetResult`) at most once, and exactly once when the coroutine is over -/
+theorem result_published_once_Coro (hwf : w.WF) (hwt : w.WFT) (h : Reachable w s) :
+    s.published.length ≤ 1 ∧ (s.pc = .done ∨ s.pc = .gone → s.published = [outcome s]) :=
+  ⟨C13.published_at_most_once hwf hwt h, fun hp => (C13.co_return_is_result hwf hwt h hp).1⟩
+
+/-- the stopped-executor path: a coroutine Dropped while queued is completed with StopError, never resumed again, and keeps all its
+    locals until the frame goes (they are destroyed by `handle.destroy()`, not by leaving scopes) -/
+theorem dropped_coroutine_keeps_locals_until_destroy_Coro (hwf : w.WF) (hwt : w.WFT) (h : Reachable w s)
+    (hd : s.dropped = true) :
+    (s.pc = .fin ∨ s.pc = .done ∨ s.pc = .gone) ∧ s.result = some .err ∧ (s.pc = .fin → s.live = w.locals) ∧
+    (s.pc = .gone → s.frameDestroyed = 1 ∧ s.localDtors = w.locals) :=
+  ⟨(C13.stopped_executor_stop_error hwf hwt h hd).1, (C13.stopped_executor_stop_error hwf hwt h hd).2.1,
+    (full_reachable hwf hwt h).d.drop_live hd, (C13.frame_destroyed_once hwf hwt h).2.2.1⟩
+
+/-- `~Task` of an awaited Task that completed only releases the Task's core: it writes neither the word nor the Result nor
+    anything of the awaiting coroutine (since /repo 2690a63) -/
+theorem completed_task_just_releases_Coro {j : Nat} {s' : State} (hs : Step s (.tdtor j) s') :
+    (s.word j).isResult = true ∧ s'.cells = s.cells ∧ (∀ i, s'.stored i = s.stored i) ∧ s'.pc = s.pc ∧ s'.todo = s.todo ∧
+    s'.tasksReleased = s.tasksReleased ++ [j] := C13.completed_task_just_releases hs
+
+/-- (iii) quiescence: in a state in which only the environment could still act the coroutine is over — Result published exactly
+    once, every local destroyed exactly once, the frame destroyed exactly once (normal completion, escaped exception, Dropped by
+    a stopped executor alike) — or it is suspended on an awaited object that has not been fulfilled, which then owns it
+    (the frame is legitimately alive: the pending callback is its owner) -/
+theorem quiescent_frame_released_Coro (hwf : w.WF) (hwt : w.WFT) (h : Reachable w s)
+    (hq : ∀ l s', Step s l s' → isEnv l = true) :
+    (s.pc = .gone ∧ s.published = [outcome s] ∧ s.frameDestroyed = 1 ∧ s.localDtors = w.locals ∧ s.live = 0 ∧
+      ∀ j p, p ∉ (s.word j).cbs) ∨ Waiting s := by
+  rcases C13.quiescent_complete hwf hwt h hq with ⟨hg, hp, hf, hl, _⟩ | hw
+  · left
+    have hD := (full_reachable hwf hwt h).d
+    exact ⟨hg, hp, hf, hl, hD.gone_live hg, no_dangling_callback_Coro hwf hwt h (Or.inl (by rw [hg]; rfl))⟩
+  · exact Or.inr hw
+
+/-- non-vacuity, the stopped-executor path (the run of `C13.w3`): `AwaitOn(e1, f)`, the callback submits the coroutine, e1 Drops
+    it: StopError is published, both locals die with the frame, the frame is destroyed once, no callback is left behind, and
+    afterwards only the environment can act -/
+example : ∃ s, Reachable C13.w3 s ∧ s.dropped = true ∧ s.frameDestroyed = 1 ∧ s.localDtors = 2 ∧ s.published = [.err] ∧
+    (s.word 0).cbs = [] := by
+  have h0 : Reachable C13.w3 (init C13.w3) := .init
+  have h1 := C13.validator_sound h0 (l := .start) (s' := _) rfl
+  have h2 := C13.validator_sound h1 (l := .regLoad 0 .empty) (s' := _) rfl
+  have h3 := C13.validator_sound h2 (l := .cas 0 .ok) (s' := _) rfl
+  have h4 := C13.validator_sound h3 (l := .pXchg 0) (s' := _) rfl
+  have h5 := C13.validator_sound h4 (l := .fire 0 0) (s' := _) rfl
+  have h6 := C13.validator_sound h5 (l := .submit 1) (s' := _) rfl
+  have h7 := C13.validator_sound h6 (l := .exDrop) (s' := _) rfl
+  have h8 := C13.validator_sound h7 (l := .publish .err) (s' := _) rfl
+  have h9 := C13.validator_sound h8 (l := .ldtor) (s' := _) rfl
+  have h10 := C13.validator_sound h9 (l := .ldtor) (s' := _) rfl
+  have h11 := C13.validator_sound h10 (l := .fdtor) (s' := _) rfl
+  exact ⟨_, h11, rfl, rfl, rfl, rfl, rfl⟩
+
+end Yaclib.Props.C03.Coro
+
+/-! ## Strand (Model/Strand.lean; `Strand::{Submit, Call, Drop}`)
+
+Objects: the jobs handed to `Strand::Submit` (the strand owns a job from the successful push until it `Call`s it — the job then
+releases itself — or `Drop`s it) and the strand's reference to itself (`IncRef` before `_executor->Submit(*this)`, `DecRef`
+when `Call` gives the strand back / at the end of `Drop`).  `executed` / `dropped`: jobs in the order they were Called / Dropped;
+`word.inbox`, `curRem s` (rest of the batch being Called), `drainRem (s.acts a)` (rest of a batch being Dropped) are the
+places from which the strand can still reach a job.  Every behaviour of the underlying executor that honours the IExecutor
+contract, i.e. including a stopped one that Drops the strand's activations. -/
+namespace Yaclib.Props.C03.Strand
+open Yaclib.Strand
+
+variable {w : Workload} {s : State}
+
+/-- (ii) a job handed to the strand is released at most once: Called at most once, Dropped at most once, never both -/
+theorem job_released_once_Strand (h : Reachable w s) :
+    s.executed.Nodup ∧ s.dropped.Nodup ∧ ∀ j, j ∈ s.executed → j ∉ s.dropped := C07.called_xor_dropped h
+
+/-- (i) a job that was Called or Dropped is out of the strand's reach: it is not in the inbox, not in the rest of the batch being
+    Called, not in the rest of any batch being Dropped — no list node of a released job is ever followed again -/
+theorem no_job_touched_after_release_Strand (h : Reachable w s) {j : JobId} (hj : j ∈ s.executed ∨ j ∈ s.dropped) :
+    j ∉ s.word.inbox ∧ j ∉ curRem s ∧ ∀ a, j ∉ drainRem (s.acts a) := by
+  have hi := inv_reachable h
+  have hcn : (calls s.taken).Nodup := List.Nodup.sublist (calls_sublist _) hi.ord.fsts_nodup
+  rcases hj with hj | hj
+  · have ht := executed_taken hi.ord hj
+    refine ⟨fun hm => hi.ord.inbox_fresh hm true ht, ?_, fun a hm => hi.ord.taken_excl ht (hi.drop.drain_taken a j hm).1⟩
+    rw [hi.ord.exec_eq, List.nodup_append] at hcn
+    exact fun hm => hcn.2.2 j hj j hm rfl
+  · have ht := hi.drop.drop_taken j hj
+    refine ⟨fun hm => hi.ord.inbox_fresh hm false ht, ?_, fun a hm => (hi.drop.drain_taken a j hm).2.1 hj⟩
+    intro hm
+    have : j ∈ calls s.taken := by rw [hi.ord.exec_eq]; exact List.mem_append_right _ hm
+    exact hi.ord.taken_excl (mem_calls.mp this) ht
+
+/-- (i)/(ii) at the step level: the job whose body is entered (`Call`) or that is Dropped has been neither Called nor Dropped before -/
+theorem job_called_or_dropped_only_if_unreleased_Strand (h : Reachable w s) {a : Nat} {j : JobId} {s' : State}
+    (hs : Step s (.aBegin a j) s' ∨ Step s (.aDrop a j) s') : j ∉ s.executed ∧ j ∉ s.dropped := by
+  have hi := inv_reachable h
+  have key : (j ∈ curRem s ∨ ∃ a, j ∈ drainRem (s.acts a)) → j ∉ s.executed ∧ j ∉ s.dropped := by
+    intro hr
+    constructor <;> intro hm
+    · have := no_job_touched_after_release_Strand h (Or.inl hm)
+      rcases hr with hr | ⟨a, hr⟩
+      · exact this.2.1 hr
+      · exact this.2.2 a hr
+    · have := no_job_touched_after_release_Strand h (Or.inr hm)
+      rcases hr with hr | ⟨a, hr⟩
+      · exact this.2.1 hr
+      · exact this.2.2 a hr
+  rcases hs with hs | hs
+  · cases hs with
+    | aBegin _ _ rem hp =>
+        have hh := (hi.tok.tok_act a).mp (by rw [hp]; rfl)
+        exact key (Or.inl (by simp [curRem, hh, remOf, hp, callRem]))
+  · cases hs with
+    | aDrop _ _ rem hp => exact key (Or.inr ⟨a, by simp [hp, drainRem]⟩)
+
+/-- (iii) nothing is forgotten: when no thread of the system can take a step the inbox is empty (idle marker), no activation
+    exists that has not returned, and every job of the workload has been Called or Dropped — exactly one of the two, exactly once -/
+theorem quiescent_all_jobs_released_Strand (h : Reachable w s) (hq : ∀ l s', ¬ Step s l s') :
+    s.word = .mark ∧ (∀ a, s.acts a = .none ∨ s.acts a = .done) ∧
+    ∀ i k, k < jobsOf w i →
+      ((⟨i, k⟩ : JobId) ∈ s.executed ∨ (⟨i, k⟩ : JobId) ∈ s.dropped) ∧
+      s.executed.count ⟨i, k⟩ + s.dropped.count ⟨i, k⟩ = 1 := by
+  obtain ⟨_, ha, hw, _, hall⟩ := C07.quiescent_all_done h hq
+  obtain ⟨hne, hnd, hx⟩ := C07.called_xor_dropped h
+  refine ⟨hw, ha, fun i k hk => ⟨hall i k hk, ?_⟩⟩
+  rcases hall i k hk with hm | hm
+  · have h1 := List.nodup_iff_count.mp hne ⟨i, k⟩
+    have h1' := List.count_pos_iff.mpr hm
+    have h2 := List.count_eq_zero_of_not_mem (hx _ hm)
+    omega
+  · have h1 := List.nodup_iff_count.mp hnd ⟨i, k⟩
+    have h1' := List.count_pos_iff.mpr hm
+    have h2 : (⟨i, k⟩ : JobId) ∉ s.executed := fun he => hx _ he hm
+    have h2 := List.count_eq_zero_of_not_mem h2
+    omega
+
+/-- the strand's reference to itself, every state: IncRefs (`Submit` by the submitter that replaced the idle marker) = DecRefs
+    (`Call` giving the strand back, end of `Drop`) + 1 if an activation holds the token + the number of activations inside
+    `Strand::Drop`.  In particular never more DecRefs than IncRefs (no double release of the strand by itself).
+    (`ReachableRef`: the model's runs with the two counters computed from the labels — Proofs/StrandOwn.lean.) -/
+theorem self_reference_accounted_Strand {inc dec : Nat} (h : ReachableRef w s inc dec) :
+    inc = dec + actTok s.holder + cntD s.acts s.nacts ∧ dec ≤ inc := by
+  have := refInv_reachable h
+  unfold RefInv at this
+  exact ⟨this, by omega⟩
+
+/-- (i) an activation of the strand that was created and has not returned (queued in the underlying executor, inside
+    `Strand::Call` or inside `Strand::Drop`) holds a reference: the strand cannot be deleted under it by its own `DecRef` -/
+theorem activation_holds_self_reference_Strand {inc dec : Nat} (h : ReachableRef w s inc dec) {a : Nat}
+    (ha : holdsTok (s.acts a) = true ∨ isDrain (s.acts a) = true) : dec < inc := by
+  have hr := (self_reference_accounted_Strand h).1
+  have hi := (inv_reachable h.reachable).tok
+  rcases ha with ha | ha
+  · have := (hi.tok_act a).mp ha
+    rw [this] at hr
+    simp only [actTok] at hr
+    omega
+  · have hlt : a < s.nacts := act_lt hi (by intro hn; rw [hn] at ha; cases ha)
+    have := cntD_pos s.acts s.nacts a hlt ha
+    omega
+
+/-- (iii) at quiescence IncRef and DecRef are balanced: every reference the strand took on itself has been given back (every
+    activation ended by handing its reference to the next one, by `DecRef` in `Call`, or by `DecRef` at the end of `Drop`) -/
+theorem self_reference_balanced_at_quiescence_Strand {inc dec : Nat} (h : ReachableRef w s inc dec)
+    (hq : ∀ l s', ¬ Step s l s') : inc = dec := by
+  have hr := (self_reference_accounted_Strand h).1
+  have hi := (inv_reachable h.reachable).tok
+  obtain ⟨_, ha⟩ := quiescent_threads hi hq
+  obtain ⟨hh, _⟩ := quiescent_idle hi hq
+  have hz : cntD s.acts s.nacts = 0 := by
+    apply cntD_zero
+    intro a _
+    rcases ha a with hx | hx <;> rw [hx] <;> rfl
+  rw [hh, hz] at hr
+  simpa [actTok] using hr
+
+/-- every reachable state is covered by the three theorems above -/
+theorem self_reference_counters_exist_Strand (h : Reachable w s) : ∃ inc dec, ReachableRef w s inc dec := reachable_ref h
+
+/-- non-vacuity: a submission lands in the window between the batch runner's last check and its CAS back to idle: the first
+    activation hands its reference on (re-submits), the second gives the strand back: one IncRef, one DecRef, two activations -/
+example : ∃ s inc dec, ReachableRef [1, 1] s inc dec ∧ (inc, dec, s.nacts, s.executed, s.word) =
+    (1, 1, 2, [C07.j00, C07.j10], Word.mark) :=
+  runRef_witness (ls := [.sLoad 0 .mark, .sCasOk 0, .sSched 0, .aCall 0, .aBegin 0 C07.j00, .aEnd 0 C07.j00, .aLoad 0 true,
+    .sLoad 1 .null, .sCasOk 1, .aCasFail 0, .aResub 0, .aCall 1, .aBegin 1 C07.j10, .aEnd 1 C07.j10, .aLoad 1 true,
+    .aCasOk 1]) (fun r => (r.2.1, r.2.2, r.1.nacts, r.1.executed, r.1.word)) _ rfl
+
+/-- non-vacuity: the underlying executor refuses the activation (stopped): both jobs are Dropped once, the DecRef comes with the
+    last Drop -/
+example : ∃ s inc dec, ReachableRef [2] s inc dec ∧ (inc, dec, s.executed, s.dropped, s.word) =
+    (1, 1, [], [C07.j01, C07.j00], Word.mark) :=
+  runRef_witness (ls := [.sLoad 0 .mark, .sCasOk 0, .sSched 0, .sLoad 0 (.job C07.j00), .sCasOk 0, .aDropX 0,
+    .aDrop 0 C07.j01, .aDrop 0 C07.j00]) (fun r => (r.2.1, r.2.2, r.1.executed, r.1.dropped, r.1.word)) _ rfl
+
+end Yaclib.Props.C03.Strand
+
+/-! ## FairThreadPool (Model/Pool.lean; `FairThreadPool::{Submit, Loop, Stop, SoftStop, HardStop, Wait}`)
+
+Objects: the jobs handed to `Submit`.  The pool owns a job from `Submit` until it releases it in exactly one of three ways:
+`Submit` itself Drops it (the pool was already stopped: `rejected`), a worker Calls it (`started`; the job then releases itself),
+`HardStop` takes the queue away and Drops it (`hardDropped`).  `queue` is the pool's intrusive list — the only place from which
+a worker can still reach a job.  Every number of workers / submitters / jobs, with no stop, Stop, SoftStop or HardStop at any
+point. -/
+namespace Yaclib.Props.C03.Pool
+open Yaclib.Pool
+
+variable {w : Workload} {s : State}
+
+/-- (ii) a job handed to `Submit` is released at most once over all three release points together: Dropped by `Submit`, Called
+    by a worker, Dropped by `HardStop` -/
+theorem job_released_once_Pool (h : Reachable w s) (j : JobId) :
+    s.rejected.count j + s.started.count j + s.hardDropped.count j ≤ 1 := by
+  have h1 := C08.accepted_xor_dropped h j
+  have h2 := (C08.accepted_called_once_or_hardstopped h j).1
+  split at h1 <;> omega
+
+/-- (i) a released job is out of the pool's reach: it is not in the queue, so no worker pops it and `HardStop` does not take it
+    (again) -/
+theorem no_job_touched_after_release_Pool (h : Reachable w s) {j : JobId}
+    (hj : j ∈ s.rejected ∨ j ∈ s.started ∨ j ∈ s.hardDropped) : j ∉ s.queue := by
+  have hb := invB_reachable h
+  have h1 := C08.accepted_xor_dropped h j
+  have h2 := hb.call_count j
+  have h3 : s.accepted.count j = s.popped.count j + s.queue.count j + s.stolen.count j := by
+    rw [hb.acc_split, List.count_append, List.count_append]
+  have h4 := (C08.accepted_called_once_or_hardstopped h j).2
+  have h5 := hardDropped_le_stolen h j
+  intro hq
+  have hq' := List.count_pos_iff.mpr hq
+  rcases hj with hj | hj | hj <;> have hp := List.count_pos_iff.mpr hj
+  · split at h1 <;> omega
+  · omega
+  · omega
+
+/-- (i) after `Wait()` returned every worker has left `Loop`, no job body is running and no Call can happen: the pool object may
+    be destroyed without any worker touching it or a job afterwards -/
+theorem nothing_runs_after_wait_Pool (h : Reachable w s) (hr : s.waitReturned = true) :
+    (∀ pc ∈ s.workers, pc = .exited) ∧ s.workers.countP WPc.running = 0 ∧ (∀ i j s', ¬ Step s (.call i j) s') :=
+  C08.after_wait_nothing_runs h hr
+
+/-- (iii) nothing is forgotten: when nothing can happen any more (except spurious wake-ups) every job of the workload has been
+    released exactly once — Dropped by `Submit`, Called, or Dropped by `HardStop` — and the queue is empty -/
+theorem quiescent_all_jobs_released_Pool (h : Reachable w s) (hn : 0 < w.workers) (hq : Quiescent s) {i n k : Nat}
+    (hi : w.subs[i]? = some n) (hk : k < n) :
+    s.rejected.count ⟨i, k⟩ + s.started.count ⟨i, k⟩ + s.hardDropped.count ⟨i, k⟩ = 1 ∧ s.queue = [] := by
+  have h1 := (C08.quiescent_all_submitted h hn hq hi hk).2
+  have h2 := C08.accepted_called_once_or_hardstopped h ⟨i, k⟩
+  refine ⟨?_, (C08.no_lost_wakeup h hn hq).queue_empty⟩
+  by_cases ha : (⟨i, k⟩ : JobId) ∈ s.accepted
+  · have h3 := C08.quiescent_all_finished h hn hq ha
+    have := List.count_pos_iff.mpr ha
+    omega
+  · have := List.count_eq_zero_of_not_mem ha
+    omega
+
+end Yaclib.Props.C03.Pool
+
+/-! ## Wait / WaitFor / WaitUntil (Model/Wait.lean; `detail::WaitRange`, `WaitCore`, `MultiEvent` + `CallCallback::Impl`,
+`SetDeleter`, `MutexEvent`, `BaseCore::{SetCallbackImpl, ResetImpl, SetResultImpl}`)
+
+The wait event is a STACK object of the waiter: nothing is allocated, but pointers to it are stored in the words of the awaited
+cores and taken out by the producers.  `alive` is true from the event's construction until the waiter can leave `WaitRange`
+(its destruction); the ghost `uaf` is set by any step in which a producer touches the event (`fetch_sub` on its counter,
+`lock` / `unlock` inside `Set`) while `alive = false` — stack reuse is modelled literally.  So C03 here reads: the event is
+never touched after its release and no pointer to it survives it; each awaited core's Result is consumed at most once.
+All numbers of futures, timed and untimed calls, shared and unique futures, timeouts at any point. -/
+namespace Yaclib.Props.C03.Wait
+open Yaclib.Wait
+
+variable {w : Workload} {s s' : State} {l : Label}
+
+/-- (i) no completion touches the waiter's stack event (`MultiEvent` / `MutexEvent`) after `WaitRange` returned -/
+theorem stack_event_not_touched_after_return_Wait (h : Reachable w s) : s.uaf = false := C11.event_untouched_after_return h
+
+/-- (i) the same at the step level: a producer's decrement of the event counter and its `lock` / `unlock` inside
+    `MutexEvent::Set` happen while the event exists -/
+theorem event_touched_only_while_alive_Wait (h : Reachable w s) (hs : Step s l s')
+    (hl : (∃ i old, l = .pSub i old) ∨ (∃ i, l = .lock (.p i)) ∨ (∃ i, l = .unlock (.p i))) : s.alive = true :=
+  C11.touch_only_alive h hs hl
+
+/-- (i) no dangling pointer: when no event exists (before, between and after the wait calls) no word of an awaited core holds an
+    event pointer and no producer holds one it took out of a word -/
+theorem no_dangling_event_pointer_Wait (h : Reachable w s) (ha : s.alive = false) (i : Nat) :
+    (s.fut i).word ≠ .ev ∧ (s.fut i).ppc ≠ .took ∧ (s.fut i).ppc ≠ .setting ∧ (s.fut i).ppc ≠ .locked :=
+  C11.words_restored h ha i
+
+/-- (ii) `MutexEvent::Set` runs at most once per event (`SetDeleter::Delete` = the "release" of the counted event) -/
+theorem event_set_at_most_once_Wait (h : Reachable w s) (ha : s.alive = true) : s.evSet ≤ 1 := C11.set_at_most_once h ha
+
+/-- (ii) the Result of an awaited core is consumed (continuation invoked / `Get() &&` returned — the step that releases the unique
+    core) at most once, also after any number of timed-out and repeated waits on it -/
+theorem awaited_result_consumed_once_Wait (h : Reachable w s) (i : Nat) : (s.fut i).ndel ≤ 1 := C11.later_delivery_once h i
+
+/-- (iii) quiescence: when nothing but a spurious wake-up is possible no event exists, no word and no producer holds a pointer
+    to one, the event was never touched after a return, and every future that the workload consumes was consumed exactly once -/
+theorem quiescent_no_event_left_Wait (h : Reachable w s) (hwf : w.wf) (hq : ∀ l s', Step s l s' → Spur s l) :
+    s.alive = false ∧ s.uaf = false ∧
+    (∀ i, (s.fut i).word ≠ .ev ∧ (s.fut i).ppc ≠ .took ∧ (s.fut i).ppc ≠ .setting ∧ (s.fut i).ppc ≠ .locked) ∧
+    (∀ i, i < s.w.n → s.w.fin i ≠ .none → (s.fut i).ndel = 1) := by
+  have hd := C11.quiescent_complete h hwf hq
+  have hi := inv_reachable h
+  have ha : s.alive = false := by
+    cases hal : s.alive with
+    | false => rfl
+    | true => have := hi.alive_iff.mp hal; rw [hd.wpc] at this; cases this
+  exact ⟨ha, hi.uaf, fun i => C11.words_restored h ha i, hd.del⟩
+
+end Yaclib.Props.C03.Wait
+
+/-! ## WaitGroup / OneShotEvent (Model/Event.lean; `OneShotEvent::{TryAdd, Wait, TimedWait, Set}` + `SetImpl`, `Waiter::Call`,
+`TimedWaiter::Call`, `WaitGroup::{Add, Done, InsertRange, Wait, WaitFor}`, `CallCallback::Impl`, `DropCallback::Impl`)
+
+Objects: the waiter jobs registered in the event's list — a blocking waiter is a stack object, a TIMED waiter is a heap object
+with two owners (the thread inside `WaitFor` and the event's list; `refs`, `nfree` = executions of its delete, `freed`); the ghost
+`bad` is set by any access to a waiter object that is gone — and the cores of futures handed over with `Consume` (`ncon`:
+consumes decided, `nfree`: releases by the WaitGroup machinery, word `drop` = `DropCallback` installed, release pending).
+Hypothesis `w.ok`: the documented rule "Add only while the count is non-zero". -/
+namespace Yaclib.Props.C03.Event
+open Yaclib.Event
+
+variable {w : Workload} {s s' : State} {l : Label}
+
+/-- (i)/(ii) the heap waiter of a timed wait is freed at most once — by whichever of its two owners lets go last (`refs` = owners
+    that have not let go) — and nobody ever touches a waiter object (heap or stack) that is gone -/
+theorem timed_waiter_freed_once_Event (hok : w.ok) (h : Reachable w s) (j : Nat) (hk : (s.job j).kind = .timed) :
+    (s.job j).nfree ≤ 1 ∧ ((s.job j).freed = true ↔ (s.job j).nfree = 1) ∧ s.bad = false ∧
+    ((s.job j).st ≠ .failed →
+      (s.job j).refs = (if (s.job j).oref then 1 else 0) + (if (s.job j).st.inList then 1 else 0) ∧
+      ((s.job j).freed = true ↔ (s.job j).refs = 0)) := C16.timed_waiter_freed_once hok h j hk
+
+/-- (i) no waiter object is accessed after it was freed / left scope, in any reachable state -/
+theorem waiter_not_touched_after_free_Event (hok : w.ok) (h : Reachable w s) : s.bad = false :=
+  (invJ_reachable hok h).bad
+
+/-- (ii) the core of a consumed future is released by the WaitGroup exactly as often as it was consumed minus the release that is
+    still pending in its `DropCallback`: never more releases than consumes; attached futures are never released -/
+theorem consumed_future_released_once_Event (h : Reachable w s) (f : Nat) :
+    (s.fut f).nfree + (if (s.fut f).word = .drop then 1 else 0) = (s.fut f).ncon := C16.consumed_released_once h f
+
+/-- (ii) every waiter is released (resumed / woken) at most once -/
+theorem waiter_released_once_Event (hok : w.ok) (h : Reachable w s) (j : Nat) : (s.job j).nrel ≤ 1 := C16.released_once hok h j
+
+/-- (iii) once the count has reached zero no release of a consumed core is pending any more: every consumed future's core has
+    been released exactly as often as it was consumed -/
+theorem zero_all_consumed_released_Event (hok : w.ok) (h : Reachable w s) (hz : s.zeroed = true) (f : Nat) :
+    (s.fut f).nfree = (s.fut f).ncon := by
+  have h1 := C16.consumed_released_once h f
+  have ht := invT_reachable hok h
+  have htoks := (C16.zero_is_final hok h hz).2.1
+  have hnd : (s.fut f).word ≠ .drop := by
+    intro hd
+    have := ht.t_tok f (Or.inr hd)
+    rw [htoks] at this; cases this
+  simpa [hnd] using h1
+
+/-- (iii) quiescence after zero: every thread finished, every waiter was released exactly once, every heap waiter of a timed wait
+    was freed exactly once (also when the wait timed out or arrived late), every consumed core was released -/
+theorem quiescent_all_released_Event (hok : w.ok) (h : Reachable w s) (hq : ∀ l s', Step s l s' → Spur s l)
+    (hz : s.zeroed = true) :
+    (∀ j, j < s.njobs → ((s.job j).kind = .timed → (s.job j).freed = true ∧ (s.job j).nfree = 1) ∧
+      ((s.job j).kind ≠ .timed → (s.job j).nrel = 1)) ∧
+    (∀ f, (s.fut f).nfree = (s.fut f).ncon) ∧ s.bad = false := by
+  have hd := (C16.quiescent_complete hok h hq hz).2
+  refine ⟨fun j hj => ⟨fun hk => ?_, fun hk => ?_⟩, zero_all_consumed_released_Event hok h hz,
+    waiter_not_touched_after_free_Event hok h⟩
+  · rcases (hd j hj).timed hk with h1 | h1
+    · exact ⟨h1.1, h1.2.1⟩
+    · exact ⟨h1.2.1, h1.2.2⟩
+  · cases hkk : (s.job j).kind with
+    | timed => exact absurd hkk hk
+    | blocking => exact (hd j hj).blocking hkk
+    | coro => exact (hd j hj).coro hkk
+
+end Yaclib.Props.C03.Event
+
+/-! ## coroutine Mutex (Model/CoMutex.lean; `detail::MutexImpl::{TryLockAwait, AwaitLock, TryUnlockAwait, UnlockHereAwait,
+AwaitUnlock, AwaitUnlockOn, GetHead}`, the Lock / Unlock / Guard awaiters)
+
+Nothing is allocated: the waiter node of a lock request is the awaiter object inside the FRAME of the requesting coroutine,
+linked into the atomic stack `_sender` (`senderList s`) or the holder's list `_receiver`.  C03 here reads: a node is linked in at
+most one list, at most once, and only while its coroutine is parked — i.e. suspended with the frame alive and executing nothing —
+so no list ever points into a frame that runs, has left the `co_await`, or has finished; at quiescence no list links any node.
+Any number of coroutines and rounds, every acquire / release form, Batching and FIFO on or off. -/
+namespace Yaclib.Props.C03.CoMutex
+open Yaclib.CoMutex
+
+variable {cfg : Cfg} {s : State}
+
+/-- (ii) a waiter node (the `LockAwaiter` in the coroutine frame) is linked at most once and in at most one of `_sender` /
+    `_receiver` -/
+theorem waiter_node_linked_once_CoMutex (h : Reachable cfg s) : (senderList s ++ s.receiver).Nodup := C14.waiters_nodup h
+
+/-- (i) no dangling waiter: a linked node belongs to a coroutine that is parked — suspended inside its `co_await`, its frame alive
+    — and a parked coroutine executes no step at all until the releaser's `grant` unlinks it -/
+theorem no_dangling_waiter_CoMutex (h : Reachable cfg s) {c : Cid} (hl : c ∈ senderList s ∨ c ∈ s.receiver) :
+    s.pc c = .parked ∧ ∀ l s', Step s l s' → l.agent ≠ .co c ∧ (s'.pc c = .parked ∨ (∃ a inl, l = .grant a c inl) ∧ s'.pc c = .acq) :=
+  have hp := (C14.parked_iff_linked h c).mpr hl
+  ⟨hp, fun _ _ hs => ⟨C14.waiting_holds_no_thread h hp hs, C14.parked_until_granted h hp hs⟩⟩
+
+/-- (i) a coroutine that runs (owns the mutex, is inside its critical section, is trying to lock, is between rounds or has finished)
+    is in no list: nothing points into its frame -/
+theorem running_coroutine_not_linked_CoMutex (h : Reachable cfg s) {c : Cid} (hp : s.pc c ≠ .parked) :
+    c ∉ senderList s ∧ c ∉ s.receiver :=
+  ⟨fun hm => hp ((C14.parked_iff_linked h c).mpr (Or.inl hm)), fun hm => hp ((C14.parked_iff_linked h c).mpr (Or.inr hm))⟩
+
+/-- (ii)/(iii) every successful push of a waiter node is matched by exactly one grant (= unlink + resume), except the one for
+    which the coroutine is still parked: no node is dropped from a list without being resumed, none is resumed twice -/
+theorem waiter_unlinked_exactly_once_CoMutex (h : Reachable cfg s) (c : Cid) :
+    s.arrivals.count c = s.granted.count c + (if s.pc c = .parked then 1 else 0) ∧
+    s.arrivals.count c = s.granted.count c + (senderList s).count c + s.receiver.count c :=
+  ⟨C14.grant_once h c, C14.conservation h c⟩
+
+/-- (iii) at quiescence no list links any node: `_sender` is `kNotLocked`, `_receiver` is empty, every coroutine has finished all
+    its rounds and every node that was ever linked was unlinked by exactly one grant -/
+theorem quiescent_no_waiter_linked_CoMutex (h : Reachable cfg s) (hq : ∀ l s', ¬ Step s l s') :
+    senderList s = [] ∧ s.receiver = [] ∧ s.own = .free ∧
+    ∀ c, s.pc c = .idle ∧ s.todo c = [] ∧ s.arrivals.count c = s.granted.count c := by
+  obtain ⟨hw, hr, ho, hc⟩ := C14.quiescent_none_parked h hq
+  exact ⟨by simp [senderList, hw, Word.list], hr, ho, fun c => ⟨(hc c).1, (hc c).2.1, (hc c).2.2.2⟩⟩
+
+end Yaclib.Props.C03.CoMutex
+
+/-! ## coroutine SharedMutex (Model/CoSharedMutex.lean; `SharedMutexImpl::{TryLockSharedAwait, AwaitLockShared, UnlockHereShared,
+TryLockAwait, AwaitLock, UnlockHere, SlowUnlock, RunWriter, RunReaders}`)
+
+As for the Mutex the waiter nodes live in the coroutine frames.  A node can be in: the readers queue `_readers` (`Q`), the writers
+queue `_writers` (`WQ`), the local list `readers` of `RunReaders` (`torun`: popped, not yet submitted), or be the pending first
+writer `_writers_first` (`pw`).  Every <FIFO, ReadersFIFO>, any number of coroutines and rounds, all lock / try-lock / unlock forms. -/
+namespace Yaclib.Props.C03.CoSharedMutex
+open Yaclib.CoSharedMutex
+
+variable {cfg : Cfg} {s : State}
+
+/-- (ii) a waiter node is linked at most once and in at most one of the lists `_readers`, `_writers`, `readers` (RunReaders); and
+    the pending first writer is in none of them -/
+theorem waiter_node_linked_once_CoSharedMutex (h : Reachable cfg s) (c : Cid) :
+    s.Q.count c + s.WQ.count c + s.torun.count c ≤ 1 ∧
+    (s.pw.who = some c → s.Q.count c + s.WQ.count c + s.torun.count c = 0) := by
+  have hi := inv_reachable h
+  have h1 := hi.l_q c
+  have h2 := hi.l_wq c
+  have h3 := hi.l_torun c
+  constructor
+  · split at h1 <;> split at h2 <;> split at h3 <;> simp_all
+  · intro hw
+    have hpc : s.pc c ≠ .rparked ∧ s.pc c ≠ .wparkedQ ∧ s.pc c ≠ .rgranted := by
+      cases hpw : s.pw with
+      | none => rw [hpw] at hw; cases hw
+      | a n r =>
+          rw [hpw] at hw; cases hw
+          have := hi.pw_a c r hpw; rw [this]; simp
+      | b n =>
+          rw [hpw] at hw; cases hw
+          have := hi.pw_b c hpw; rw [this]; simp
+      | c n b =>
+          rw [hpw] at hw; cases hw
+          have := (hi.pw_c c b hpw).1; rw [this]; simp
+    simp [hpc.1, hpc.2.1, hpc.2.2] at h1 h2 h3
+    omega
+
+/-- (i) no dangling waiter: a node that is queued, popped by `RunReaders` or published as `_writers_first` (debt posted) belongs to
+    a parked coroutine — suspended, frame alive — which executes no step -/
+theorem no_dangling_waiter_CoSharedMutex (h : Reachable cfg s) {c : Cid}
+    (hl : c ∈ s.Q ∨ c ∈ s.WQ ∨ c ∈ s.torun ∨ s.pw = .b c ∨ ∃ x, s.pw = .c c x) :
+    (s.pc c).isParked = true ∧ ∀ l s', Step s l s' → l.agent ≠ .co c := by
+  have hi := inv_reachable h
+  have hp : (s.pc c).isParked = true := by
+    rcases hl with hl | hl | hl | hl | ⟨x, hl⟩
+    · have h1 := hi.l_q c
+      have := List.count_pos_iff.mpr hl
+      split at h1
+      · rename_i hpc; rw [hpc]; rfl
+      · omega
+    · have h1 := hi.l_wq c
+      have := List.count_pos_iff.mpr hl
+      split at h1
+      · rename_i hpc; rw [hpc]; rfl
+      · omega
+    · have h1 := hi.l_torun c
+      have := List.count_pos_iff.mpr hl
+      split at h1
+      · rename_i hpc; rw [hpc]; rfl
+      · omega
+    · rw [hi.pw_b c hl]; rfl
+    · rw [(hi.pw_c c x hl).1]; rfl
+  exact ⟨hp, fun _ _ hs => C15.waiting_holds_no_thread h hp hs⟩
+
+/-- (i) a coroutine that is not parked (running, inside a section, between rounds, finished) is in no list -/
+theorem running_coroutine_not_linked_CoSharedMutex (h : Reachable cfg s) {c : Cid} (hp : (s.pc c).isParked = false) :
+    c ∉ s.Q ∧ c ∉ s.WQ ∧ c ∉ s.torun := by
+  refine ⟨fun hm => ?_, fun hm => ?_, fun hm => ?_⟩
+  · have := (no_dangling_waiter_CoSharedMutex h (Or.inl hm)).1; rw [hp] at this; cases this
+  · have := (no_dangling_waiter_CoSharedMutex h (Or.inr (Or.inl hm))).1; rw [hp] at this; cases this
+  · have := (no_dangling_waiter_CoSharedMutex h (Or.inr (Or.inr (Or.inl hm)))).1; rw [hp] at this; cases this
+
+/-- (ii)/(iii) every park of a coroutine is matched by exactly one `Run` of it (= unlink + resume), except the one it is parked for -/
+theorem waiter_unlinked_exactly_once_CoSharedMutex (h : Reachable cfg s) (c : Cid) :
+    s.parks c = s.grants c + (if (s.pc c).isParked then 1 else 0) := C15.grant_once h c
+
+/-- (iii) at quiescence no list links any node and no first writer is pending; every coroutine has finished, every park was
+    matched by one `Run` -/
+theorem quiescent_no_waiter_linked_CoSharedMutex (h : Reachable cfg s) (hq : ∀ l s', ¬ Step s l s') :
+    s.Q = [] ∧ s.WQ = [] ∧ s.torun = [] ∧ s.pw = .none ∧ ∀ c, s.pc c = .idle ∧ s.todo c = [] ∧ s.parks c = s.grants c := by
+  obtain ⟨hW, _, _, _, hQ, hWQ, _, hc⟩ := C15.quiescent_none_parked h hq
+  have hi := inv_reachable h
+  have ht : s.torun = [] := by
+    apply List.eq_nil_iff_forall_not_mem.mpr
+    intro c hm
+    have h1 := hi.l_torun c
+    have := List.count_pos_iff.mpr hm
+    rw [(hc c).1] at h1
+    simp at h1
+    omega
+  exact ⟨List.eq_nil_of_length_eq_zero hQ, List.eq_nil_of_length_eq_zero hWQ, ht, (C15.j1_no_writer h hW).2.2.2.2.1,
+    fun c => ⟨(hc c).1, (hc c).2.1, (hc c).2.2.2⟩⟩
+
+end Yaclib.Props.C03.CoSharedMutex
